@@ -12,6 +12,15 @@ N_THOROUGH = 40000
 DONE = ("CANCELLED", "CANCELLED_AND_NOTIFIED", "FINISHED")
 
 
+class FalsyError(KeyError):
+    def __bool__(self):
+        return False
+
+
+class BaseBoom(BaseException):
+    pass
+
+
 def gen(rng):
     npos = rng.randint(0, 4)
     nkw = rng.randint(0, 3)
@@ -22,6 +31,11 @@ def gen(rng):
     return {"npos": npos, "nkw": nkw, "fail": fail, "order": order, "pre": [rng.random() < 0.3 for _ in range(n)],
             "fn_raises": rng.random() < 0.2, "fn_exc": rng.randrange(4), "env_threads": rng.randint(1, 3),
             # arguments whose VALUE is itself a future (pending / done / failed): passed to fn as they are
+            # the failing input's exception object: ordinary, falsy, a BaseException that is not an Exception (what a pool
+            # stores for a callable that called sys.exit()), an exception type the future machinery gives a meaning of its own
+            "boom_kind": rng.choice(["key", "key", "falsy", "base", "cancelled", "stopiter"]),
+            # inputs that are library futures themselves (f_proxy / f_nocancel / f_map over the environment future)
+            "wrap": {str(i): rng.choice(["proxy", "nocancel", "map"]) for i in range(n) if rng.random() < 0.2},
             "futvals": {str(i): rng.choice(["pending", "done", "failed"]) for i in range(1, n) if rng.random() < 0.12}}
 
 
@@ -44,8 +58,9 @@ def execute(p, chooser):
                     inner.set_exception(RuntimeError("inner failure"))
                 vals[int(i)] = inner
         obs["vals"] = vals
-        boom = KeyError("input")
         from concurrent.futures import CancelledError
+        boom = {"key": KeyError("input"), "falsy": FalsyError("input"), "base": BaseBoom("input"),
+                "cancelled": CancelledError("input"), "stopiter": StopIteration("input")}[p.get("boom_kind", "key")]
         fnexc = [ValueError("fn"), CancelledError(), StopIteration("fn"), TimeoutError("fn")][p.get("fn_exc", 0)]
 
         def fn(*a, **k):
@@ -67,8 +82,14 @@ def execute(p, chooser):
             for i in range(n):
                 if p["pre"][i]:
                     complete(i)
-        kw = {"k%d" % j: futs[1 + p["npos"] + j] for j in range(p["nkw"])}
-        out = f_apply(futs[0], *futs[1:1 + p["npos"]], **kw)
+        from more_executors.futures import f_proxy, f_nocancel, f_map
+        with det.atomic():
+            given = list(futs)
+            for i, w in p.get("wrap", {}).items():
+                f = futs[int(i)]
+                given[int(i)] = f_proxy(f) if w == "proxy" else f_nocancel(f) if w == "nocancel" else f_map(f, lambda x: x)
+        kw = {"k%d" % j: given[1 + p["npos"] + j] for j in range(p["nkw"])}
+        out = f_apply(given[0], *given[1:1 + p["npos"]], **kw)
         todo = [i for i in p["order"] if not p["pre"][i]]
 
         def env():
